@@ -281,7 +281,32 @@ def ops_for(obj, pool, msg_types, passive=(), probes=True):
         cv = changed_value(obj, f, pool)
         if cv is not None:
             ops.append((f'but({f.name}=changed)', lambda f=f, cv=cv: _but_changed(obj, f, cv)))
+        if object.__getattribute__(obj, f.name) is not None and f.name in ('alias', 'activator', 'terminator', 'trigger'):
+            # clearing an optional field is a change like any other
+            ops.append((f'but({f.name}=None)', lambda f=f: _but_cleared(obj, f)))
+    if is_expr and probes and T_is_bool(obj):
+        # a quantifier built around the existing condition, binding each of its free variables
+        try:
+            free = sorted(obj.external_references())
+        except Exception:  # noqa: BLE001
+            free = []
+        for name in free[:2]:
+            ops.append((f'HplQuantifier(forall {name} in {{1, 2}}: obj)', lambda name=name: A.HplQuantifier('forall', name, A.HplSet((A.HplLiteral('1', 1), A.HplLiteral('2', 2))), obj)))
+            ops.append((f'HplQuantifier(exists {name} in [0 to 3]: obj)', lambda name=name: A.HplQuantifier('exists', name, A.HplRange(A.HplLiteral('0', 0), A.HplLiteral('3', 3)), obj)))
+    if type(obj).__name__ == 'HplQuantifier' and probes:
+        ops.append(('but(domain=set literal)', lambda: obj.but(domain=A.HplSet((A.HplLiteral('1', 1), A.HplLiteral('2', 2))))))
+        ops.append(('but(domain=range literal)', lambda: obj.but(domain=A.HplRange(A.HplLiteral('0', 0), A.HplLiteral('3', 3)))))
+        ops.append(('replace_var_reference inside', lambda: obj.replace_var_reference('A', A.HplFieldAccess(A.HplThisMessage(), 'zz'))))
     return ops
+
+
+def T_is_bool(obj):
+    from hplmc.ref import types as T
+
+    try:
+        return T.names_of(int(obj.data_type.value)) == T.B
+    except Exception:  # noqa: BLE001
+        return False
 
 
 class ButProblem(Exception):
@@ -294,6 +319,30 @@ def _but_same(obj, f):
     if r is not obj:
         raise ButProblem(f'but({f.name}=<the same value>) returned a different object')
     return None
+
+
+def _but_cleared(obj, f):
+    kwargs = {}
+    for g in attrs.fields(type(obj)):
+        if g.init:
+            kwargs[g.name.lstrip('_')] = None if g.name == f.name else object.__getattribute__(obj, g.name)
+    try:
+        fresh = type(obj)(**kwargs)
+    except Exception:  # noqa: BLE001
+        fresh = None
+    try:
+        new = obj.but(**{f.name: None})
+    except Exception:  # noqa: BLE001
+        if fresh is not None:
+            raise ButProblem(f'but({f.name}=None) raised although a fresh construction with those fields succeeds')
+        return None
+    if new is obj:
+        raise ButProblem(f'but({f.name}=None) returned the object itself')
+    if fresh is None:
+        raise ButProblem(f'but({f.name}=None) returned an object although a fresh construction with those fields is rejected')
+    if absyn.canon(absyn.lift(fresh, typed=True)) != absyn.canon(absyn.lift(new, typed=True)) or fresh != new:
+        raise ButProblem(f'but({f.name}=None) differs from a fresh construction with those fields')
+    return new
 
 
 def _but_changed(obj, f, cv):
@@ -614,7 +663,7 @@ def replay(w):
 def describe(tier):
     b = bounds(tier)
     return {
-        'rule': f"bases: parser results for every Bool/Num term with <= {b['nodes']} nodes (as expression and predicate), a 29-text family aimed at rewrites that build new parents around existing children (aggregates over sets, implications, negated disjunctions, quantifier splitting, operand flipping), 5 annotated properties, 6 API-built nodes around deliberately untyped shared children. Pool = base + up to 13 sub-objects + objects returned by earlier calls. Alphabet: ~45 calls per expression (printers, hash/==, children/iterate, 4 reference queries, is_fully_typed, cast to 12 type sets, but() same/changed per field, reshape, 2 replacements, simplify, split_and, refactor_reference, the this/var rewrites, constructors of every node class (operators, accessors, sets, ranges, function calls, quantifiers, predicates, events) around the object, schema check), predicate, event and property calls likewise. All sequences of <= {b['depth']} state-changing calls (family: {b['family_depth']}); plus histories of length 2 over twins (two equal, separately parsed objects with different metadata: 14 expression kinds, 2 predicates, 3 properties): every ordered pair of 26 calls (12 casts, 13 constructors around the node, reshape; predicates: 11 calls, properties: 10 calls), the first on one twin and the second on the other; In the initial states every public property and every public no-argument method of each object's class (found by introspection) is also read / called. every call is followed by a deep snapshot comparison of every pool object.",
+        'rule': f"bases: parser results for every Bool/Num term with <= {b['nodes']} nodes (as expression and predicate), a 29-text family aimed at rewrites that build new parents around existing children (aggregates over sets, implications, negated disjunctions, quantifier splitting, operand flipping), 5 annotated properties, 6 API-built nodes around deliberately untyped shared children. Pool = base + up to 13 sub-objects + objects returned by earlier calls. Alphabet: ~45 calls per expression (printers, hash/==, children/iterate, 4 reference queries, is_fully_typed, cast to 12 type sets, but() same/changed per field, reshape, 2 replacements, simplify, split_and, refactor_reference, the this/var rewrites, constructors of every node class (operators, accessors, sets, ranges, function calls, quantifiers, predicates, events) around the object, schema check), predicate, event and property calls likewise. All sequences of <= {b['depth']} state-changing calls (family: {b['family_depth']}); plus histories of length 2 over twins (two equal, separately parsed objects with different metadata: 14 expression kinds, 2 predicates, 3 properties): every ordered pair of 26 calls (12 casts, 13 constructors around the node, reshape; predicates: 11 calls, properties: 10 calls), the first on one twin and the second on the other; Optional fields (alias, activator, terminator, trigger) are also cleared with but(field=None); boolean expressions are wrapped in a quantifier that binds one of their free variables; quantifiers get another domain. In the initial states every public property and every public no-argument method of each object's class (found by introspection) is also read / called. every call is followed by a deep snapshot comparison of every pool object.",
         'bounds': b,
         'exhaustive': True,
         'assumptions': ['metadata is a mutable annotation by design: the harness itself writes one key before the first snapshot'],
